@@ -6,7 +6,8 @@
 (* Coroutines may suspend at points placed in the middleware (before /      *)
 (* after the inner handler), in the method and in the error handler.  The   *)
 (* (kinds: ok, plain, fail, fail2 - two different error codes, view - a   *)
-(* method of a class based view keeping request state on its instance).  *)
+(* method of a class based view keeping request state on its instance;    *)
+(* view0 - the same on a view registered without a context).               *)
 (* loop is modelled as it is: a FIFO ready queue, one running task, tasks   *)
 (* run until they suspend or finish; a suspended task becomes ready when    *)
 (* the environment releases the future it awaits (Release).                 *)
